@@ -49,7 +49,8 @@ type Opts struct {
 	NoVar  bool // string values never start with '?'
 	NoVarKeys bool // map keys never start with '?'
 	Finite bool // numbers are finite
-	Pool   []string
+	Pool   []string // when set, map keys are drawn from this pool (concrete strings)
+	ValPool []string // when set, string values are drawn from this pool
 }
 
 // ---- counterexample file ----
